@@ -189,7 +189,7 @@ func c09GenConfig(r *vlib.Rand, avoidWordPlusOne bool) *c09Config {
 
 func c09Budget(run *vlib.Run) time.Duration {
 	if run.Single() {
-		return 600 * time.Second
+		return 180 * time.Second
 	}
 	return 60 * time.Second
 }
